@@ -466,9 +466,32 @@ static void checkC14(Ctx& c, long idx, Rng& r) {
     k.disc = new Force::DiscreteForces(k.m.forces, k.m.matter);
     bool grav = r.coin();
     if (grav) Force::UniformGravity(k.m.forces, k.m.matter, randVec3(r, 9.8));
+    // Prescribed motion (every other case): some mobilizers follow a Motion with non-zero
+    // prescribed acceleration, or are locked; the reaction of a prescribed mobilizer then
+    // carries the motion force and the free-body balance must still hold for every body.
+    std::vector<int> presc(k.m.bodies.size(), 0);   // 0 free, 1 sinusoid, 2 steady, 3 lock
+    bool anyPresc = false;
+    if (idx % 2 == 1) {
+        for (size_t b = 0; b < k.m.bodies.size(); ++b) {
+            int t = k.m.desc.nodes[b].type;
+            if (t == MT_Weld || !r.coin(0.4)) continue;
+            if (k.m.desc.nodes[b].parent < 0 && k.m.desc.nodes[b].type == MT_Translation && k.m.desc.nodes[b].fF == 0 && k.m.desc.nodes[b].fM == 0) { /* may be the lone-particle node: also legal */ }
+            int kind = r.integer(1, 3);
+            if (kind == 1) {
+                static const Motion::Level L[] = {Motion::Acceleration, Motion::Velocity, Motion::Position};
+                bool quatQ = mobHasQuat(t) && !k.m.desc.euler;   // position-level motion on quaternion coordinates is not a legal request
+                Motion::Sinusoid(k.m.bodies[b], L[r.integer(0, quatQ ? 1 : 2)], r.uni(0.2, 1.2), r.uni(0.5, 3), r.sym(3));
+            } else if (kind == 2) Motion::Steady(k.m.bodies[b], r.sym(1.5));
+            presc[b] = kind; anyPresc = true;
+        }
+    }
     k.s = k.m.init();
+    k.s.updTime() = r.uni(0, 2);
     randomQU(k.m, k.s, r, idx % 7 == 6);
+    for (size_t b = 0; b < k.m.bodies.size(); ++b) if (presc[b] == 3) k.m.bodies[b].lock(k.s, r.coin() ? Motion::Position : Motion::Velocity);
+    if (anyPresc) { k.m.sys.realize(k.s, Stage::Time); k.m.sys.prescribeQ(k.s); }
     k.m.sys.realize(k.s, Stage::Position);
+    if (anyPresc) { k.m.sys.prescribeU(k.s); }
     if (!sphericalOK(k.m, k.s)) { c.skip("spherical-singularity"); return; }
     const SimbodyMatterSubsystem& matter = k.m.matter; State& s = k.s; int nu = s.getNU(), nb = matter.getNumBodies();
     if (nu == 0) { c.skip("no-mobilities"); return; }
@@ -525,6 +548,7 @@ static void checkC14(Ctx& c, long idx, Rng& r) {
         c.check("routes:onParentAtOrigin:" + tkey, spMax(onPO - shiftF(onF, par.getBodyTransform(s).p() - X_GF.p())), E1 * scale * 10, W("reaction on parent at origin != shifted reaction at F", b));
         // projection on the free directions equals the applied mobility force
         int nuB = mb.getNumU(s); int u0 = mb.getFirstUIndex(s);
+        if (presc[nodeIx]) { c.cover(std::string("prescribed/") + tkey + "/kind" + std::to_string(presc[nodeIx])); nuB = 0; }   // the motion force acts along H: judged by C10
         for (int j = 0; j < nuB; ++j) {
             SpatialVec H = mb.getHCol(s, MobilizerUIndex(j));
             double proj = ~H[0] * Rb[0] + ~H[1] * Rb[1];
